@@ -22,6 +22,7 @@ func checkC10(c *Ctx, r *Report) {
 	r.rule("C10.R2", "the session reference is an injective function of the counter (constant non-digit separator next to the digits)", 1)
 	r.rule("C10.R4", "the allocated number is carried in 64 bits from the counter to the digits (no wrap-around within the life of the process)", 1)
 	r.rule("C10.R5", "the subscriber context a reference is registered in stays in the pool while requests are served (a reference registered in a context that was dropped designates nothing)", 1)
+	r.rule("C10.R6", "the record registered under a newly allocated reference is a record made in that step, not one that another reference already designates", 1)
 	r.rule("C10.R3", "ue.Cdr is written only in create (key = the reference) and in update/release under the request's own reference", 1)
 
 	create := c.fn("internal/sbi/processor", "Processor.ChargingDataCreate")
@@ -142,6 +143,11 @@ func checkC10(c *Ctx, r *Report) {
 		})
 	}
 	r.count("cdr_map_writes", n)
+	// R6: the value stored under the new reference
+	if mu, ok := idPos.(*ssa.MapUpdate); ok {
+		fresh, why := freshRecord(c, create, mu.Value, 0)
+		r.check(fresh, "C10.R6", key+"|record registered under the new reference", posOf(c, mu), "every record that can be registered under the new reference is built in this step ("+why+")", "the record registered under the newly allocated reference can be one that exists already ("+why+"): two references then designate one record - updates and the release addressed to either act on the other session's record, and one session never gets a record of its own")
+	}
 	checkPoolLifetime(c, r, "C10.R5", "a create that fetched the context before the removal registers its record in the orphaned object and answers 201 with a reference that the next update or release (which look the subscriber up again and get a fresh context) cannot find - the reference designates no session")
 }
 
@@ -582,4 +588,124 @@ func narrowestWidth(c *Ctx, v ssa.Value, depth int, seen map[ssa.Value]bool) (in
 		}
 	}
 	return best, where
+}
+
+// freshRecord: every object v can denote is made by the step itself: a composite literal /
+// new object of the function, a decoder's deep copy, or the result of a module function all
+// of whose non-nil results are such objects.  An element of a map or list, a parameter or a
+// member of a longer-lived object is not.
+func freshRecord(c *Ctx, f *ssa.Function, v ssa.Value, depth int) (bool, string) {
+	for i := 0; i < 4; i++ {
+		v = resolveLocalLoad(v)
+	}
+	if ph, ok := v.(*ssa.Phi); ok && depth < 6 {
+		for _, e := range ph.Edges {
+			if isNilConst(e) {
+				continue
+			}
+			if ok, why := freshRecord(c, f, e, depth+1); !ok {
+				return false, why
+			}
+		}
+		return true, "built on every path"
+	}
+	var callee *ssa.Function
+	var callArgs []ssa.Value
+	idx := 0
+	switch x := v.(type) {
+	case *ssa.Alloc:
+		elem := x.Type().(*types.Pointer).Elem()
+		if _, isPtr := elem.Underlying().(*types.Pointer); !isPtr {
+			return true, "a new object of " + f.Name()
+		}
+		// a pointer variable: every value stored in it
+		n := 0
+		for _, ref := range *x.Referrers() {
+			switch y := ref.(type) {
+			case *ssa.Store:
+				if y.Addr == ssa.Value(x) {
+					n++
+					if ok, why := freshRecord(c, f, y.Val, depth+1); !ok {
+						return false, why
+					}
+				}
+			case *ssa.Call:
+				if obj := calleeObj(&y.Call); obj != nil && obj.Pkg() != nil && obj.Pkg().Path() == "encoding/json" && obj.Name() == "Unmarshal" {
+					n++
+				}
+			}
+		}
+		if n > 0 {
+			return true, "assigned new objects only"
+		}
+		return false, "a variable that is never assigned a new object"
+	case *ssa.Call:
+		callee, callArgs = x.Call.StaticCallee(), x.Call.Args
+	case *ssa.Extract:
+		if call, ok := x.Tuple.(*ssa.Call); ok {
+			callee, idx, callArgs = call.Call.StaticCallee(), x.Index, call.Call.Args
+		}
+	}
+	if callee != nil && c.inModule(callee) && depth < 6 {
+		n := 0
+		for _, ri := range returnsOf(callee) {
+			if idx >= len(ri.Vals) || isNilConst(ri.Vals[idx]) {
+				continue
+			}
+			if !returnFeasibleFor(callee, ri, callArgs) {
+				continue // behind a test of a flag this call passes as a constant
+			}
+			n++
+			if ok, why := freshRecord(c, callee, ri.Vals[idx], depth+1); !ok {
+				return false, "returned by " + callee.Name() + ": " + why
+			}
+		}
+		if n > 0 {
+			return true, "returned by " + callee.Name() + ", which builds it"
+		}
+		return false, callee.Name() + " returns no record"
+	}
+	return false, describe(v) + " is not an object made in this step"
+}
+
+// returnFeasibleFor: false when the return lies behind a branch on a boolean parameter that
+// this call binds to the constant of the other branch (OpenCDR(..., false): the partial-record
+// exit is not taken).
+func returnFeasibleFor(callee *ssa.Function, ri retInfo, args []ssa.Value) bool {
+	if len(args) != len(callee.Params) {
+		return true
+	}
+	for i, p := range callee.Params {
+		k, ok := args[i].(*ssa.Const)
+		if !ok || k.Value == nil || k.Value.Kind() != constant.Bool {
+			continue
+		}
+		want := constant.BoolVal(k.Value)
+		for _, b := range callee.Blocks {
+			if len(b.Instrs) == 0 {
+				continue
+			}
+			iff, ok := b.Instrs[len(b.Instrs)-1].(*ssa.If)
+			if !ok || len(b.Succs) != 2 {
+				continue
+			}
+			cond, neg := iff.Cond, false
+			if u, ok := cond.(*ssa.UnOp); ok && u.Op == token.NOT {
+				cond, neg = u.X, true
+			}
+			if cond != ssa.Value(p) {
+				continue
+			}
+			// successor 0 is taken when the condition holds
+			taken := want != neg
+			dead := b.Succs[0]
+			if taken {
+				dead = b.Succs[1]
+			}
+			if b.Succs[0] != b.Succs[1] && edgeDominates(b, dead, ri.At) {
+				return false
+			}
+		}
+	}
+	return true
 }
